@@ -12,8 +12,8 @@ func init() {
 		Level: "exploration",
 		Rule: "random histories over six foreign-key wirings (fk index nullable / non-nullable / cascade-delete; fk constraint nullable or not with cascade none / delete / create-update; self-referencing store) " +
 			"with ids containing quotes, backslash escapes, newlines, spaces and filter keywords; model predicts accept / reject class and the exact cascade closure; structural monitor compares back-reference buckets, " +
-			"dangling references and the surviving id set after every transaction; Part (b): a store whose fk index points at itself (self references, cycles) plus a second store referencing it, with ids of 32766-32768 bytes, judged without a model after every operation: an error changed nothing; every reference names an existing entity listed back by its target; every back-reference entry names an existing referrer. Part (c): two sibling child stores that each declare an fk constraint of the same name to the same target store: after every operation (incl. deletes of the target) no stored reference names a missing entity. non-trivial = distinct (op kind, store, outcome, population class, configuration) tuples",
-		Assumptions: []string{"cascade-delete cycles are not driven (unbounded recursion, liveness)", "CascadeCreateUpdate declares no enforcement on delete: dangling boss references there are predicted, not reported"},
+			"dangling references and the surviving id set after every transaction; cascade closures include reference cycles and self references (boss chains that lead back to the deleted employee): every member goes, once; Part (b): a store whose fk index points at itself (self references, cycles; restrict, nullable, and in every third case cascade-delete on both fks: exactly the transitive referrers computed from the raw pre-state are gone) plus a second store referencing it, with ids of 32766-32768 bytes, judged without a model after every operation: an error changed nothing; every reference names an existing entity listed back by its target; every back-reference entry names an existing referrer. Part (c): two sibling child stores that each declare an fk constraint of the same name to the same target store: after every operation (incl. deletes of the target) no stored reference names a missing entity. non-trivial = distinct (op kind, store, outcome, population class, configuration) tuples",
+		Assumptions: []string{"CascadeCreateUpdate declares no enforcement on delete: dangling boss references there are predicted, not reported"},
 		Plan: func(tier core.Tier, seed int64) int {
 			if tier == core.Thorough {
 				return 96000 + c04SelfCases*20 + 24*10
@@ -75,7 +75,7 @@ func init() {
 				"self_fk_shape": {"self", "self+edge-size id"}}
 		},
 		MinCounters: func(core.Tier) map[string]int64 {
-			return map[string]int64{"cascade_deletes": 20, "cascades_of_3_or_more": 100, "self_fk_states_checked": 1000}
+			return map[string]int64{"cascade_deletes": 20, "cascades_of_3_or_more": 100, "self_fk_states_checked": 1000, "cascade_deletes_over_a_reference_cycle": 20, "self_fk_cascade_deletes_over_a_cycle": 8}
 		},
 	})
 }
